@@ -77,7 +77,14 @@ def run_mp(scn):
                 time.sleep(random.Random(scn['_dseed'] ^ os.getpid() ^ len(results)).random() * dmax)
         return orig_put(self, results)
 
+    gcs = {'tasks': 0, 'collected': False}
+
     def execute(self):
+        if scn.get('_gc_schedule') and os.getpid() != main_pid:
+            import gc
+            gc.disable()              # the collector does not happen to run earlier ...
+            gcs['tasks'] += 1
+            gcs['collected'] = False
         st = orig_exec(self)
         if os.getpid() != main_pid:
             log('finish', self.info['source_id'], st['results'])
@@ -110,6 +117,31 @@ def run_mp(scn):
         finally:
             log('pexit', 0, 0)
 
+    if scn.get('_gc_schedule'):
+        # ... but runs once, between request and response of the first manager-proxy call
+        # of every later task of a worker: a legal schedule of the cyclic collector
+        from multiprocessing import managers
+        orig_cm = managers.BaseProxy._callmethod
+
+        def _callmethod(self, methodname, args=(), kwds={}):
+            if os.getpid() == main_pid or gcs['tasks'] < 2 or gcs['collected']:
+                return orig_cm(self, methodname, args, kwds)
+            import gc
+            try:
+                conn = self._tls.connection
+            except AttributeError:
+                self._connect()
+                conn = self._tls.connection
+            conn.send((self._id, methodname, args, kwds))
+            gcs['collected'] = True
+            gc.collect()
+            kind, result = conn.recv()
+            if kind == '#RETURN':
+                return result
+            if kind == '#PROXY':
+                return orig_cm(self, methodname, args, kwds)
+            raise managers.convert_to_error(kind, result)
+        patch(managers.BaseProxy, '_callmethod', _callmethod)
     patch(TK.SearchTask, 'put_result', put_result)
     patch(TK.SearchTask, 'execute', execute)
     patch(SR.SearchResultsCollection, 'add', add)
@@ -139,6 +171,22 @@ def run_mp(scn):
         shutil.rmtree(tmpdir, ignore_errors=True)
 
 
+def gen_gc_scenario(rng, tier):
+    """ small queue (so that put_nowait raises queue.Full) + several tasks per worker +
+    the collector scheduled inside a proxy call of a later task """
+    scn = gen_scenario(rng, tier)
+    while len(scn['files']) < 6:
+        scn = gen_scenario(rng, tier)
+    scn['max_parallel_tasks'] = 2
+    scn['_gc_schedule'] = True
+    scn['_delays'] = 0
+    scn['_patch'] = {'RESULTS_QUEUE_SIZE': 2, 'NUM_BUFFERED_RESULTS': 7}
+    for f in scn['files']:
+        data = bytes.fromhex(f['content'])
+        f['content'] = b'\n'.join(data.split(b'\n')[:25]).hex()
+    return scn
+
+
 def run_alone(scn, fidx):
     """ the same file searched alone, in-process, with the searches registered on it """
     s2 = dict(scn)
@@ -154,8 +202,12 @@ def eval_cases(rng, count, extra):
     todo = fixed if fixed is not None else [None] * count
     out = []
     for item in todo:
-        scn = item if item is not None else gen_scenario(rng, extra.get('tier', 'quick'),
-                                                         extra.get('big', False))
+        if item is not None:
+            scn = item
+        elif extra.get('gc'):
+            scn = gen_gc_scenario(rng, extra.get('tier', 'quick'))
+        else:
+            scn = gen_scenario(rng, extra.get('tier', 'quick'), extra.get('big', False))
         mp = run_mp(scn)
         alone = {}
         order, _ = T.catalog_order(scn)
@@ -177,6 +229,8 @@ def judge(rep, item, mrun, cmo):
     rep.count('results', mp.get('len', 0))
     if '_patch' in scn:
         rep.count('patched_threshold_runs')
+    if scn.get('_gc_schedule'):
+        rep.count('gc_scheduled_runs')
     # (i) the property, literally: per path identical to the file searched alone
     errs_alone = [v['err'] for v in alone.values() if 'err' in v]
     if 'err' in mp or errs_alone:
@@ -221,7 +275,9 @@ def run(tier, seed, replay_case=None):
     rep = core.Report(PROP, tier, seed)
     core.lean_build()
     aud = core.audit(PROP)
-    nruns, nbig = (40, 1) if tier == 'quick' else (600, 12)
+    # big (> 10^4 results per file, real thresholds) only in the thorough tier: the model
+    # evaluation of such files is slow; quick crosses the thresholds by patching them down
+    nruns, nbig = (40, 0) if tier == 'quick' else (600, 12)
     items = []
     corpus = core.load_corpus(PROP) if replay_case is None else [replay_case]
     if corpus:
@@ -229,8 +285,12 @@ def run(tier, seed, replay_case=None):
     if replay_case is None:
         items += core.run_sharded(eval_cases, seed, nruns, {'tier': tier},
                                   shards=min(core.NCPU, nruns), workers=8)
-        items += core.run_sharded(eval_cases, seed + 3, nbig, {'tier': tier, 'big': True},
-                                  shards=min(4, nbig), workers=4)
+        if nbig:
+            items += core.run_sharded(eval_cases, seed + 3, nbig, {'tier': tier, 'big': True},
+                                      shards=min(4, nbig), workers=4)
+        ngc = 3 if tier == 'quick' else 40
+        items += core.run_sharded(eval_cases, seed + 4, ngc, {'tier': tier, 'gc': True},
+                                  shards=min(8, ngc), workers=8)
     drv = core.Driver()
     mruns = T.run_models([it['scn'] for it in items], drv)
     ccases = []
